@@ -402,3 +402,45 @@ func (g *gen) callTailProcs() {
 		}
 	}
 }
+
+// callRecoverPair calls the function that panics and recovers and then the one
+// whose deferred function reports what recover() returns without a panic: a
+// recovered panic must not be visible to a later recover() of the invocation.
+func (g *gen) callRecoverPair() {
+	ps := g.callable(func(f *fn) bool { return f.rcPanics })
+	qs := g.callable(func(f *fn) bool { return f.rcWatch })
+	if len(ps) == 0 || len(qs) == 0 || g.r.Intn(5) == 0 {
+		return
+	}
+	rp, rq := ps[0], qs[0]
+	g.noteCall(rp)
+	g.noteCall(rq)
+	g.f("recover-after-recovered-panic")
+	pair := func(pa, qa string) {
+		a, b := g.fresh("r"), g.fresh("r")
+		g.w("%s := %s(%s)", a, rp.name, pa)
+		g.w("%s := %s(%s)", b, rq.name, qa)
+		g.w("acc = (acc*31 + %s + %s%%1000) %% %d", a, b, modBig)
+	}
+	// an argument on which rp surely panics
+	hit := fmt.Sprintf("%d + %d*((acc%%3+3)%%3)", rp.guardC, rp.guardK)
+	switch g.r.Intn(3) {
+	case 0:
+		pair(hit, "acc % 9")
+	case 1:
+		i := g.fresh("i")
+		g.w("for %s := range %d {", i, 2+g.r.Intn(3))
+		g.ind++
+		pair(i+" + acc%2", i)
+		g.ind--
+		g.w("}")
+		pair(hit, "3")
+	default:
+		i := g.fresh("i")
+		g.w("for %s := range 2 {", i)
+		g.ind++
+		pair(hit+" + "+fmt.Sprint(rp.guardK)+"*"+i, "acc%7 + "+i)
+		g.ind--
+		g.w("}")
+	}
+}
